@@ -488,10 +488,10 @@ func runMutantChild(def *propDef, mf, repo, goarch string) int {
 		cur, ok := overlay[abs]
 		if !ok {
 			b, err := os.ReadFile(abs)
-			if err != nil {
+			if err != nil && e.Old != "" {
 				return emit("skipped", "file missing: "+e.File, nil)
 			}
-			cur = b
+			cur = b // a file the mutant adds starts empty
 		}
 		n := strings.Count(string(cur), e.Old)
 		if n == 0 || (n > 1 && e.Line == 0) {
